@@ -4,7 +4,7 @@
 # pass 1 without the Kani / native harnesses (fast); a change that survives pass 1 is re-run with them.
 # NOTE: mutates /repo while running and overwrites /verif/evidence: regenerate the evidence on the clean tree afterwards.
 out=/verif/seeded/RESULTS.txt
-glob=${SEED_GLOB:-[mnpqstu]*}
+glob=${SEED_GLOB:-[mnpqstuvw]*}
 if [ "$SEED_APPEND" = "1" ]; then sed -i '/^done$/d' $out; else : > $out; fi
 for d in /verif/seeded/C*/$glob; do
   p=$(basename $(dirname $d)); m=$(basename $d)
